@@ -98,12 +98,48 @@ def spec_collapse(I, s):
     return out
 
 
+def is_cyclic(ents):
+    graph = {k: [p[1] for p in v if p.startswith("E")] for k, v in ents.items()}
+    state = {}
+
+    def dfs(n):
+        if state.get(n) == 1:
+            return True
+        if state.get(n) == 2 or n not in graph:
+            return False
+        state[n] = 1
+        r = any(dfs(m) for m in graph[n])
+        state[n] = 2
+        return r
+    return any(dfs(k) for k in list(graph))
+
+
+def concrete_doc(pieces, ents, decl):
+    """a document realising the shape with 'x' for every text character (used when the model itself recurses without bound)"""
+    def lit(kinds):
+        out = []
+        for kind in kinds:
+            if kind[0] == "T":
+                out.append("x" * int(kind[1]))
+            elif kind in ("C9", "CA", "C41"):
+                out.append("&#x%s;" % kind[1:])
+            elif kind == "C":
+                out.append("&#x41;")
+            else:
+                out.append("&e%s;" % kind[1])
+        return "".join(out)
+    dtd = "".join("<!ENTITY e%s \"%s\">" % (k, lit(v)) for k, v in ents.items())
+    if decl != "none":
+        dtd += "<!ATTLIST r a %s #IMPLIED>" % ("CDATA" if decl == "cdata" else "NMTOKENS")
+    return "<!DOCTYPE r [%s]><r a=\"%s\"/>" % (dtd, lit(pieces))
+
+
 def run_case(job):
     pieces, ents, decl, timeout_s = job
     out = {"job": (pieces, ents, decl), "status": "holds", "paths": 0, "queries": 0, "error": None}
     t0 = time.time()
     try:
-        cyclic = ents == {"1": ["E2"], "2": ["E1"]}
+        cyclic = is_cyclic(ents)
         I = K.new_interp("debug", max_paths=20000)
         cons = []
         probes = []
@@ -273,7 +309,9 @@ def render_doc(w):
 def cases(tier):
     P = ["T1", "T2", "C", "E1"]
     out = []
-    ent_sets = [{}, {"1": ["T2"]}, {"1": ["T1", "C9"]}, {"1": ["E2", "T1"], "2": ["T1"]}, {"1": ["CA", "T1"]}]
+    ent_sets = [{}, {"1": ["T2"]}, {"1": ["T1", "C9"]}, {"1": ["E2", "T1"], "2": ["T1"]}, {"1": ["CA", "T1"]},
+                {"1": ["E2", "E2"], "2": ["T1"]},                       # the same entity reached twice, no cycle
+                {"1": ["E2", "E3"], "2": ["E3"], "3": ["T1"]}]          # a diamond
     if tier == "thorough":
         ent_sets += [{"1": ["T1", "E2"], "2": ["T2"]}, {"1": ["C41", "E2"], "2": ["C9", "T1"]}]
     maxp = 2 if tier == "quick" else 3
@@ -287,8 +325,10 @@ def cases(tier):
                     continue
                 for decl in ("none", "cdata", "tokenized"):
                     out.append((combo, ents, decl))
-    # a cyclic entity table: expansion must be refused, not recurse without bound
-    out.append((("E1",), {"1": ["E2"], "2": ["E1"]}, "none"))
+    # cyclic entity tables: expansion must be refused, not recurse without bound
+    for cyc in ({"1": ["E2"], "2": ["E1"]}, {"1": ["E1"]}, {"1": ["E2", "E1"], "2": ["T1"]}, {"1": ["T1", "E2"], "2": ["E3", "E1"], "3": ["T1"]},
+                {"1": ["E2", "E3"], "2": ["T1"], "3": ["E2", "E1"]}):
+        out.append((("E1",), cyc, "none"))
     return out
 
 
@@ -304,7 +344,7 @@ def main():
         case = json.load(open(args.replay))
         rr = rp.run({"op": "attr_value", "input": case["doc"]})
         print("replay %s -> %s" % (show(case["doc"]), rr))
-        bad = "panic" in rr or "died" in rr or (rr.get("ok") and rr.get("value") != case.get("spec"))
+        bad = "panic" in rr or "died" in rr or (rr.get("ok") and rr.get("value") != case.get("spec")) or (not rr.get("ok") and "doc_err" not in rr and case.get("spec") is not None)
         if bad:
             print("VIOLATION property=C11 replay=%s" % args.replay)
             return 1
@@ -329,7 +369,7 @@ def main():
         rep.extra["paths"] = rep.extra.get("paths", 0) + res["paths"]
         rep.functions.update(res.get("fns", {}))
         if res["status"] == "recursion":
-            doc = "<!DOCTYPE r [<!ENTITY e1 \"&e2;\"><!ENTITY e2 \"&e1;\">]><r a=\"&e1;\"/>"
+            doc = concrete_doc(pieces, ents, decl)
             rr = rp.run({"op": "attr_value", "input": doc})
             rep.replays += 1
             if "died" in rr or "panic" in rr:
@@ -359,7 +399,8 @@ def main():
             continue
         rr = rp.run({"op": "attr_value", "input": doc})
         rep.replays += 1
-        bad = "panic" in rr or "died" in rr or (rr.get("ok") and rr.get("value") != w.get("spec"))
+        bad = "panic" in rr or "died" in rr or (rr.get("ok") and rr.get("value") != w.get("spec")) \
+            or (not rr.get("ok") and "doc_err" not in rr and w.get("spec") is not None and w.get("model", [""])[0] == "err")
         if not bad:
             rep.obligation(oid, "inconclusive", witness=w)
             rep.inconclusive.append("%s: model does not reproduce: %s -> %s (spec %r)" % (oid, show(doc), rr, w.get("spec")))
